@@ -922,3 +922,166 @@ pub(crate) fn get_amd_ordering<T: FloatT>(
 #[path = "test.rs"]
 #[cfg(test)]
 mod test;
+
+// Add-only read access for the external verification harness (/verif, property C12).
+// Exposes private items of this file; adds no behaviour and nothing depends on it.
+#[cfg(feature = "verif-hooks")]
+#[allow(missing_docs)]
+pub mod verif_hooks {
+    use super::*;
+
+    /// `_invperm`
+    pub fn invperm(p: &[usize]) -> Result<Vec<usize>, QDLDLError> {
+        _invperm(p)
+    }
+
+    /// `algebra::utils::invperm` (the asserting variant used by the chordal / faer code)
+    pub fn utils_invperm(p: &[usize]) -> Vec<usize> {
+        crate::algebra::invperm(p)
+    }
+
+    /// `check_structure`
+    pub fn check_structure<T: FloatT>(A: &CscMatrix<T>) -> Result<(), QDLDLError> {
+        super::check_structure(A)
+    }
+
+    /// `_etree` on freshly allocated work arrays; returns `(Lnz, etree)`
+    pub fn etree(n: usize, Ap: &[usize], Ai: &[usize]) -> Result<(Vec<usize>, Vec<usize>), QDLDLError> {
+        let mut work = vec![0; 3 * n];
+        let mut Lnz = vec![0; n];
+        let mut etree = vec![0; n];
+        _etree(n, Ap, Ai, &mut work, &mut Lnz, &mut etree)?;
+        Ok((Lnz, etree))
+    }
+
+    /// `permute_symmetric`
+    pub fn permute_symmetric<T: FloatT>(
+        A: &CscMatrix<T>,
+        iperm: &[usize],
+    ) -> (CscMatrix<T>, Vec<usize>) {
+        super::permute_symmetric(A, iperm)
+    }
+
+    /// `permute`
+    pub fn permute<T: Copy>(x: &mut [T], b: &[T], p: &[usize]) {
+        super::permute(x, b, p)
+    }
+
+    /// `ipermute`
+    pub fn ipermute<T: Copy>(x: &mut [T], b: &[T], p: &[usize]) {
+        super::ipermute(x, b, p)
+    }
+
+    /// `_solve` (unchecked forward / diagonal+backward substitution)
+    pub fn solve<T: FloatT>(Lp: &[usize], Li: &[usize], Lx: &[T], Dinv: &[T], b: &mut [T]) {
+        _solve(Lp, Li, Lx, Dinv, b)
+    }
+
+    /// `_lsolve_unsafe`
+    pub fn lsolve<T: FloatT>(Lp: &[usize], Li: &[usize], Lx: &[T], x: &mut [T]) {
+        _lsolve_unsafe(Lp, Li, Lx, x)
+    }
+
+    /// `_dltsolve_unsafe`
+    pub fn dltsolve<T: FloatT>(Lp: &[usize], Li: &[usize], Lx: &[T], Dinv: &[T], x: &mut [T]) {
+        _dltsolve_unsafe(Lp, Li, Lx, Dinv, x)
+    }
+
+    /// `_ltsolve_unsafe`
+    pub fn ltsolve<T: FloatT>(Lp: &[usize], Li: &[usize], Lx: &[T], x: &mut [T]) {
+        _ltsolve_unsafe(Lp, Li, Lx, x)
+    }
+
+    /// `_lsolve_safe`
+    pub fn lsolve_safe<T: FloatT>(Lp: &[usize], Li: &[usize], Lx: &[T], x: &mut [T]) {
+        _lsolve_safe(Lp, Li, Lx, x)
+    }
+
+    /// `_ltsolve_safe`
+    pub fn ltsolve_safe<T: FloatT>(Lp: &[usize], Li: &[usize], Lx: &[T], x: &mut [T]) {
+        _ltsolve_safe(Lp, Li, Lx, x)
+    }
+
+    /// Result of factoring an (already permuted) upper triangular matrix with
+    /// `QDLDLWorkspace::new` + `_factor`, i.e. everything `_qdldl_new` does after the
+    /// permutation step.
+    #[derive(Debug, Clone)]
+    pub struct RawFactor<T> {
+        pub L: CscMatrix<T>,
+        pub D: Vec<T>,
+        pub Dinv: Vec<T>,
+        pub etree: Vec<usize>,
+        pub Lnz: Vec<usize>,
+        pub positive_inertia: usize,
+        pub regularize_count: usize,
+    }
+
+    /// `QDLDLWorkspace::new` followed by `_factor` on `triuA` as given (no permutation)
+    pub fn factor_raw<T: FloatT>(
+        triuA: &CscMatrix<T>,
+        Dsigns: &[i8],
+        regularize_enable: bool,
+        regularize_eps: T,
+        regularize_delta: T,
+        logical: bool,
+    ) -> Result<RawFactor<T>, QDLDLError> {
+        let n = triuA.ncols();
+        let mut workspace = QDLDLWorkspace::<T>::new(
+            triuA.clone(),
+            vec![],
+            Dsigns.to_vec(),
+            regularize_enable,
+            regularize_eps,
+            regularize_delta,
+        )?;
+        let sumLnz = workspace.Lnz.iter().sum();
+        let mut L = CscMatrix::spalloc((n, n), sumLnz);
+        let mut D = vec![T::zero(); n];
+        let mut Dinv = vec![T::zero(); n];
+        _factor(&mut L, &mut D, &mut Dinv, &mut workspace, logical)?;
+        Ok(RawFactor {
+            L,
+            D,
+            Dinv,
+            etree: workspace.etree.clone(),
+            Lnz: workspace.Lnz.clone(),
+            positive_inertia: workspace.positive_inertia,
+            regularize_count: workspace.regularize_count,
+        })
+    }
+
+    /// Read-only copy of the private state of a factorisation
+    #[derive(Debug, Clone)]
+    pub struct WorkspaceView<T> {
+        pub iperm: Vec<usize>,
+        pub etree: Vec<usize>,
+        pub Lnz: Vec<usize>,
+        pub triuA: CscMatrix<T>,
+        pub AtoPAPt: Vec<usize>,
+        pub Dsigns: Vec<i8>,
+        pub regularize_enable: bool,
+        pub regularize_eps: T,
+        pub regularize_delta: T,
+        pub positive_inertia: usize,
+        pub regularize_count: usize,
+        pub is_symbolic: bool,
+    }
+
+    pub fn workspace_view<T: FloatT>(f: &QDLDLFactorisation<T>) -> WorkspaceView<T> {
+        let w = &f.workspace;
+        WorkspaceView {
+            iperm: f.iperm.clone(),
+            etree: w.etree.clone(),
+            Lnz: w.Lnz.clone(),
+            triuA: w.triuA.clone(),
+            AtoPAPt: w.AtoPAPt.clone(),
+            Dsigns: w.Dsigns.clone(),
+            regularize_enable: w.regularize_enable,
+            regularize_eps: w.regularize_eps,
+            regularize_delta: w.regularize_delta,
+            positive_inertia: w.positive_inertia,
+            regularize_count: w.regularize_count,
+            is_symbolic: f.is_symbolic,
+        }
+    }
+}
